@@ -16,6 +16,8 @@ Sym(lang, t) ==
       \* the conventional ` * ` leader of block comments: SL = a star at the beginning of the text, NLSL = a line break followed by
       \* a star, NLBC = a line break followed by `*/` (the closing line of a quoted nested comment): a backend that re-uses or
       \* strips leaders must still not let the `*/` through
+      \* BCCR: a star and a slash with nothing but a carriage return between them - not a terminator, unless something removes the CR
+      [] t = "BCCR" -> <<"X", "CR", "X">>
       [] t = "SL" -> <<"X">> [] t = "NLSL" -> <<"NL", "X">> [] t = "NLBC" -> <<"NL", "BC">>
       [] t = "BC" -> <<"BC">> [] t = "BO" -> <<"BO">> [] t = "LC" -> <<"LC">>
       [] t = "TDQ" -> (IF lang = "python" THEN <<"TDQ">> ELSE <<"DQ", "DQ", "DQ">>)
@@ -30,6 +32,7 @@ Sym(lang, t) ==
 \* comment line at every line break, TypeScript writes `*\/` for `*/`, Python escapes backslashes and the delimiter)
 WSym(lang, t) ==
     CASE t \in {"NL", "CRLF", "CR"} /\ lang \in {"kotlin", "swift", "scala", "go"} -> <<"NL", "LC">>      \* (CR: since 8cdcc90)
+      [] t = "BCCR" /\ lang \in {"kotlin", "swift", "scala", "go"} -> <<"X", "NL", "LC", "X">>
       [] t = "BC" /\ lang = "typescript" -> <<"X", "BS", "X">>
       [] t = "NLBC" /\ lang = "typescript" -> <<"NL", "X", "BS", "X">>
       [] t \in {"NLSL", "NLBC"} /\ lang \in {"kotlin", "swift", "scala", "go"} -> <<"NL", "LC">> \o Tail(Sym(lang, t))
